@@ -24,7 +24,9 @@ func init() {
 	reg("C17", "C17.R2", "E6", "the section masker lets no input byte through", 3, ruleMaskSectionOpaque)
 	reg("C17", "C17.R3", "E2", "applied marks, counters and the value update only after a reported match; flags derive only from those results", 6, ruleMaskMarksExact)
 	reg("C17", "C17.R5", "E7", "match-rule gate: a value is rejected by length only when shorter than the shortest configured value", 2, ruleMatchRuleLengthGate)
+	reg("C17", "C17.R6", "E2", "match rules gating a mask: event data is lower-cased whenever the rule is case-insensitive", 2, ruleMatchRuleCaseFold)
 	reg("C17", "C17.R4", "E2", "the traversal recurses into every element and reaches every string/number leaf", 4, ruleMaskTraversalCovers)
+	reg("C17", "C17.R7", "E2+E6", "process/ignore field lists: the list node handed to a child is chosen for that child, never left over from a sibling", 3, ruleMaskFieldListPerChild)
 }
 
 type maskShape struct {
@@ -1118,4 +1120,267 @@ func ruleMatchRuleLengthGate(c *Ctx, r *Rule) {
 	}
 	r.Ob(n >= 1, "matchrule.Rule.match|has-length-gate", match.Pos(), "the match has a length short-cut")
 	_ = mrPkg
+}
+
+// ruleMatchRuleCaseFold: Prepare lower-cases the configured values of a case-insensitive rule, so
+// every comparison of event data with those values must see lower-cased data whenever the rule is
+// case-insensitive. Decided per comparison call in the matchrule package's Rule methods (and the
+// helpers / literals they use): the data operand is the result of bytes.ToLower, or it reaches the
+// comparison only on paths where CaseInsensitive is known to be false.
+func ruleMatchRuleCaseFold(c *Ctx, r *Rule) {
+	const mrPkg = modulePath + "/cfg/matchrule"
+	prep := c.Method("cfg/matchrule", "Rule", "Prepare")
+	if prep == nil {
+		r.Unresolved("matchrule Rule.Prepare")
+		return
+	}
+	// does Prepare fold the values at all?
+	folds := false
+	for _, ci := range callsIn(prep) {
+		if f := calleeFunc(ci); f != nil && (qualName(f) == "strings.ToLower" || qualName(f) == "bytes.ToLower") {
+			for _, l := range c.unitGuards(ci) {
+				if l.pol && isLoadOfField(l.v, mrPkg, "Rule", "CaseInsensitive") {
+					folds = true
+				}
+			}
+		}
+	}
+	r.Inst(1)
+	r.Ob(folds, c.fnName(prep)+"|folds-values", prep.Pos(), "Prepare lower-cases the configured values of a case-insensitive rule")
+	notCI := func(lits []lit) bool {
+		for _, l := range lits {
+			if !l.pol && isLoadOfField(l.v, mrPkg, "Rule", "CaseInsensitive") {
+				return true
+			}
+		}
+		return false
+	}
+	seenPhi := map[*ssa.Phi]bool{}
+	var lowered func(v ssa.Value, lits []lit, d int) (bool, string)
+	lowered = func(v ssa.Value, lits []lit, d int) (bool, string) {
+		if d > 8 {
+			return false, "too deep"
+		}
+		v = stripConv(v)
+		if isNilConst(v) {
+			return true, ""
+		}
+		switch x := v.(type) {
+		case *ssa.Call:
+			if f := x.Call.StaticCallee(); f != nil && qualName(f) == "bytes.ToLower" {
+				return true, ""
+			}
+		case *ssa.Slice:
+			return lowered(x.X, lits, d+1)
+		case *ssa.Phi:
+			if seenPhi[x] {
+				return true, "" // a cycle through loop variables adds no new source
+			}
+			seenPhi[x] = true
+			fn := x.Parent()
+			fi := c.info(fn)
+			c.guards(fn)
+			for i, e := range x.Edges {
+				if e == ssa.Value(x) {
+					continue
+				}
+				el := append(unitLits(c.edgeFacts(fi, x.Block().Preds[i], x.Block())), lits...)
+				if ok, why := lowered(e, el, d+1); !ok {
+					return false, why
+				}
+			}
+			return true, ""
+		case *ssa.UnOp:
+			if x.Op == token.MUL {
+				if cv := cellValue(x.X); cv != nil {
+					return lowered(cv, lits, d+1)
+				}
+			}
+		case *ssa.Parameter:
+			// a helper's parameter: every call site
+			fn := x.Parent()
+			if pi := paramIndex(fn, x); pi >= 0 && !notCI(lits) {
+				sites := c.sitesOf(fn)
+				if len(sites) > 0 && fn.Name() != "match" && fn.Name() != "Match" {
+					for _, cs := range sites {
+						if ok, why := lowered(cs.Common().Args[pi], c.unitGuardsCtx(cs), d+1); !ok {
+							return false, why
+						}
+					}
+					return true, ""
+				}
+			}
+		}
+		if notCI(lits) {
+			return true, ""
+		}
+		return false, c.path(v) + " reaches the comparison as it is while CaseInsensitive may be true"
+	}
+	n := 0
+	for _, fn := range c.ModFuncs {
+		if c.pkgOf(fn) != "cfg/matchrule" {
+			continue
+		}
+		top := fn
+		for top.Parent() != nil {
+			top = top.Parent()
+		}
+		if rn := recvNamed(top); rn == nil || rn.Obj().Name() != "Rule" {
+			continue
+		}
+		for _, ci := range callsIn(fn) {
+			f := calleeFunc(ci)
+			if f == nil {
+				continue
+			}
+			switch qualName(f) {
+			case "bytes.Contains", "bytes.Equal", "bytes.HasPrefix", "bytes.HasSuffix", "bytes.Index", "bytes.EqualFold":
+			default:
+				continue
+			}
+			if qualName(f) == "bytes.EqualFold" {
+				continue
+			}
+			n++
+			r.Inst(1)
+			seenPhi = map[*ssa.Phi]bool{}
+			ok, why := lowered(ci.Common().Args[0], c.unitGuardsCtx(ci), 0)
+			r.Ob(ok, fmt.Sprintf("%s|%s#%d|data-folded", c.fnName(fn), f.Name(), n), ci.Pos(), "event data compared with the configured values is lower-cased whenever the rule is case-insensitive (the values are; otherwise upper-case data never matches)"+ifs(!ok, ": "+why))
+		}
+	}
+	r.Ob(n >= 2, "matchrule|comparisons", token.NoPos, fmt.Sprintf("%d comparisons of event data with configured values in Rule's methods", n))
+}
+
+// ruleMaskFieldListPerChild: the process/ignore field lists are matched against the event as a tree
+// (fieldMasksNode); when the walk descends into a child it must choose the child's list node for
+// THAT child: the node found under the child's own name / index, the empty node when the child is
+// not listed, or the parent's node when the parent has no listed children. A value that survives
+// from a previous sibling (a variable assigned in an earlier iteration of the element loop) applies
+// one element's ignore / process list to the following elements.
+func ruleMaskFieldListPerChild(c *Ctx, r *Rule) {
+	fn := c.Method("plugin/action/mask", "Plugin", "traverseTree")
+	if fn == nil {
+		r.Unresolved("mask Plugin.traverseTree")
+		return
+	}
+	// the tree parameter and its position
+	pi := -1
+	for i, p := range fn.Params {
+		if typeIs(p.Type(), maskPkg, "fieldMasksNode") {
+			pi = i
+		}
+	}
+	if pi < 0 {
+		r.Unresolved("fieldMasksNode parameter of traverseTree")
+		return
+	}
+	fi := c.info(fn)
+	c.guards(fn)
+	// S: the boolean under which children are looked up ("this node has listed children")
+	var sVals []ssa.Value
+	var lookups []*ssa.Lookup
+	for _, b := range fn.Blocks {
+		for _, in := range b.Instrs {
+			lk, ok := in.(*ssa.Lookup)
+			if !ok || !lk.CommaOk {
+				continue
+			}
+			if _, f, _, okf := loadedField(stripConv(lk.X)); !okf || f != "children" {
+				continue
+			}
+			lookups = append(lookups, lk)
+			for _, l := range unitLits(c.guards(fn)[b]) {
+				if _, isPhi := l.v.(*ssa.Phi); isPhi && l.pol {
+					sVals = append(sVals, l.v)
+				}
+			}
+		}
+	}
+	r.Inst(1)
+	r.Ob(len(lookups) >= 1 && len(sVals) >= 1, c.fnName(fn)+"|child-lookups", fn.Pos(), fmt.Sprintf("children of the list node are looked up by the child's name / index under a has-listed-children test (%d look-ups)", len(lookups)))
+	if len(lookups) == 0 || len(sVals) == 0 {
+		return
+	}
+	noChildren := func(lits []lit) bool {
+		for _, l := range lits {
+			if l.pol {
+				continue
+			}
+			for _, s := range sVals {
+				if l.v == s {
+					return true
+				}
+			}
+		}
+		return false
+	}
+	n := 0
+	for _, ci := range callsIn(fn) {
+		if calleeFunc(ci) != fn || pi >= len(ci.Common().Args) {
+			continue
+		}
+		n++
+		r.Inst(1)
+		bad := ""
+		onStack := map[*ssa.Phi]bool{}
+		var walk func(v ssa.Value, acc []lit, d int)
+		walk = func(v ssa.Value, acc []lit, d int) {
+			if bad != "" || d > 12 {
+				return
+			}
+			switch x := v.(type) {
+			case *ssa.Phi:
+				if onStack[x] {
+					// the value of an earlier iteration comes round again
+					if !noChildren(acc) {
+						bad = "the list node chosen for a previous child (" + c.path(x) + ") is still in use for the next one on a path where this node has listed children"
+					}
+					return
+				}
+				onStack[x] = true
+				for i, e := range x.Edges {
+					walk(e, append(append([]lit(nil), acc...), unitLits(c.edgeFacts(fi, x.Block().Preds[i], x.Block()))...), d+1)
+				}
+				delete(onStack, x)
+				return
+			case *ssa.Extract:
+				if lk, ok := x.Tuple.(*ssa.Lookup); ok && x.Index == 0 {
+					has := false
+					for _, l := range acc {
+						if e, isE := l.v.(*ssa.Extract); isE && e.Tuple == ssa.Value(lk) && e.Index == 1 && l.pol {
+							has = true
+						}
+					}
+					if !has {
+						bad = "a looked-up list node is used without its found flag"
+					}
+					return
+				}
+			case *ssa.UnOp:
+				if _, f, _, ok := loadedField(x); ok && f == "emptyFMNode" {
+					return
+				}
+			case *ssa.Parameter:
+				// an object hands its own list node to its fields: the field step does the look-up by name
+				viaObject := false
+				for _, l := range acc {
+					if call, isCall := l.v.(*ssa.Call); isCall && l.pol && jsonMethod(call) == "IsObject" {
+						viaObject = true
+					}
+				}
+				if !noChildren(acc) && !viaObject {
+					bad = "the parent's list node is passed down on a path where it has listed children"
+				}
+				return
+			case *ssa.Const:
+				if x.IsNil() {
+					return // the declared-but-unassigned variable: only on the has-children paths, where it is overwritten
+				}
+			}
+			bad = "unexpected source " + c.path(v)
+		}
+		walk(ci.Common().Args[pi], c.unitGuards(ci), 0)
+		r.Ob(bad == "", fmt.Sprintf("%s|descend#%d|own-list-node", c.fnName(fn), n), ci.Pos(), "the list node handed to a child is chosen for that child (its own entry, the empty node, or the parent's node when nothing is listed below it)"+ifs(bad != "", ": "+bad))
+	}
+	r.Ob(n >= 2, c.fnName(fn)+"|descents", fn.Pos(), fmt.Sprintf("%d recursive descents examined", n))
 }
